@@ -11,6 +11,10 @@
 //===----------------------------------------------------------------------===//
 
 #include "llbuild/Basic/ExecutionQueue.h"
+
+#ifdef LLBUILD_VERIF
+#include "llbuild/Basic/VerifHooks.h"
+#endif
 #include "llbuild/Basic/PlatformUtility.h"
 
 #include "llbuild/Basic/Tracing.h"
@@ -36,6 +40,21 @@
 
 using namespace llbuild;
 using namespace llbuild::basic;
+
+#ifdef LLBUILD_VERIF
+namespace {
+std::atomic<verif::QueueHookFn> verifQueueHookFn{ nullptr };
+std::atomic<void*> verifQueueHookCtx{ nullptr };
+inline void verifNotify(verif::QueuePoint point) {
+  if (auto fn = verifQueueHookFn.load())
+    fn(verifQueueHookCtx.load(), point);
+}
+}
+void llbuild::basic::verif::setQueueHook(QueueHookFn fn, void* ctx) {
+  verifQueueHookCtx.store(ctx);
+  verifQueueHookFn.store(fn);
+}
+#endif
 
 struct QueueJobLess {
   bool operator()(const llbuild::basic::QueueJob &__x,
@@ -234,6 +253,9 @@ class LaneBasedExecutionQueue : public ExecutionQueue {
   }
 
   void killAfterTimeout() {
+#ifdef LLBUILD_VERIF
+    verifNotify(verif::QueuePoint::EscalationThreadStart);
+#endif
     std::unique_lock<std::mutex> lock(queueCompleteMutex);
 
     if (!queueComplete) {
